@@ -31,8 +31,12 @@
                                    value; the unrepaired engine did the same), C05_analyze_all_cancelled_fixed (the repaired model:
                                    one line, Canceled), C05_example_cancelled_during_second_pass (prefixes).
      dedup_value_preserving        not proved and not modelled (DedupSymmetry); judged by the exhaustive oracle only.
-     tt_valid_preserved / win_sound_complete (the table clause)   not proved; tested on every run against the forced-result solver on
-                                   fresh engines and after histories of calls (repeats, neighbours, cancelled calls, tables of 2 entries up).
+     tt_valid_preserved / win_sound_complete (the table clause)   PROVED for the engine model Search.v with MakePrecise options, a table
+        of any size and content, sort on/off, both evaluators of the check, every call cancelled anywhere or never, on a fresh engine or
+        after ANY history of such calls (C05_table_win_sound_complete; abstract form C05_table_win_sound_complete_abstract; invariant
+        C05_table_valid_preserved; per-search form C05_table_search_verdict; block at the end of this file).  Hypotheses left: the set U
+        of touched positions with NoCollision (touch_set: equal Position.Hash => same forced-result classification), positions of at
+        most 64 pieces satisfying C01's invariant, ply + 40 <= max_terminal_ply, configured depth < 40 (model fuel; ai.maxDepth = 15).
 
    How Search.v's pvSearch/zwSearch instantiate the abstract PVS of Pvs.v.  Pvs.v fixes a finite game tree T ev over kids, evaluates
    [negamax d], and defines [zw d t a] (zero-window: the children are scouted with window (-a-1, -a); the node returns a+1 if some child
@@ -377,3 +381,80 @@ Theorem C05_example_cancelled_during_second_pass :
   heads_k 281 = ([b2dn; c1; Sc1], 0, 3, true).
 Proof. exact cancelled_during_second_pass. Qed.
 Print Assumptions C05_example_cancelled_during_second_pass.
+
+
+(* ================================================================================================================================
+   THE TABLE CLAUSE (third wave, worker prove3-table; proofs SearchTable1-5.v, SearchTableEx.v, statements SearchTableThms.v)
+   W n p / L n p: the side to move at p can force a win within n plies / is lost within n plies whatever it does (rules model).
+   ================================================================================================================================ *)
+Require Import SearchLegal2 SearchTable1 SearchTable2 SearchTable3 SearchTable4 SearchTable5 SearchTableThms SearchTableEx.
+
+(* ---------------- C05 ---------------- *)
+
+(* The table clause on the instantiated model.  engine_inst U s: s is a fresh engine (any table size) or was left by any sequence of
+   Analyze calls (precise options, either built-in evaluator, any cancellation point, positions satisfying ask_ok).  Whatever such a
+   call reports with a depth d > 0 obeys verdict_ok:  v > WinThreshold -> a forced win exists;  v < -WinThreshold -> a forced loss
+   exists;  a forced win within d plies -> v > WinThreshold;  a forced loss within d plies -> v < -WinThreshold. *)
+Theorem C05_table_win_sound_complete : forall U, touch_set U ->
+  forall s cfg k p sk pv v d acc c, engine_inst U s -> precise cfg -> builtin_eval cfg -> ask_ok cfg U p ->
+  analyze_cancel gen_basis cfg k s p = (sk, (pv, v, d, acc, c)) -> 0 < d -> verdict_ok gen_basis p v d.
+Proof. exact table_win_sound_complete_inst. Qed.
+Print Assumptions C05_table_win_sound_complete.
+
+(* the same for any hash basis, any evaluator obeying eval_facts and any position sets obeying table_facts *)
+Theorem C05_table_win_sound_complete_abstract : forall basis Pos, table_facts basis Pos ->
+  forall s cfg k p sk pv v d acc c, engine basis Pos s -> precise cfg -> eval_facts cfg Pos -> call_ok cfg Pos p ->
+  analyze_cancel basis cfg k s p = (sk, (pv, v, d, acc, c)) -> 0 < d -> verdict_ok basis p v d.
+Proof. exact table_win_sound_complete. Qed.
+Print Assumptions C05_table_win_sound_complete_abstract.
+
+(* tt_valid_preserved: every state an engine can reach satisfies SJ and the table invariant *)
+Theorem C05_table_valid_preserved : forall basis Pos, table_facts basis Pos ->
+  forall s, engine basis Pos s -> SJ s /\ tt_valid basis (Pos 0%nat) s.
+Proof. exact table_valid_preserved. Qed.
+Print Assumptions C05_table_valid_preserved.
+
+(* one zwSearch / pvSearch call at any node: the state afterwards satisfies the invariant (also when cut short) and, unless the flag was
+   set, the value is right about forced results for the window it was asked with (tv_ok, vals_ok) *)
+Theorem C05_table_search_verdict : forall basis cfg k Pos, precise cfg -> table_facts basis Pos -> eval_facts cfg Pos ->
+  forall f d, (d < f)%nat -> tv_ok basis k Pos d (srch false basis cfg k f).
+Proof. exact table_search_verdict. Qed.
+Print Assumptions C05_table_search_verdict.
+
+(* the specification side is executable *)
+Theorem C05_table_spec_decidable : forall basis n p, (wb basis n p = true <-> W basis n p) /\ (lb basis n p = true <-> L basis n p).
+Proof. exact table_spec_decidable. Qed.
+Print Assumptions C05_table_spec_decidable.
+
+(* a touched set by enumeration: the tree of depth D below a root, when no two of its positions share a hash *)
+Theorem C05_table_touch_levels : forall root D, coll_free (lev root D) = true -> touch_set (Ulev root D).
+Proof. exact table_touch_levels. Qed.
+Print Assumptions C05_table_touch_levels.
+
+(* Non-vacuity, computed on the instantiated model: rootw = 3x3 after a2 a1 b2 c3 (White wins by force in exactly three plies), rootb =
+   rootw after b1; one engine with a 64-entry table; call 1 (depth 3, rootw) cancelled inside the 30th leaf evaluation, call 2 (depth 3,
+   rootw) and call 3 (depth 2, rootb) uninterrupted on the states left before.  All hypotheses hold (touched set: the 3917 positions
+   within three plies of rootw, pairwise different hashes), the theorems apply, and their conclusions agree with wb / lb. *)
+Theorem C05_table_example :
+  touch_set Uex /\ ask_ok cfg3t Uex rootw /\ ask_ok cfg2t Uex rootb /\
+  verdict_ok gen_basis rootw (r_value (snd run2)) (r_depth (snd run2)) /\ WinThreshold < r_value (snd run2) /\
+  (exists n, W gen_basis n rootw) /\ wb gen_basis 3 rootw = true /\
+  verdict_ok gen_basis rootb (r_value (snd run3)) (r_depth (snd run3)) /\ r_value (snd run3) < - WinThreshold /\
+  (exists n, L gen_basis n rootb) /\ lb gen_basis 2 rootb = true /\
+  SJ (fst run3) /\ tt_valid gen_basis (PosT Uex 0%nat) (fst run3).
+Proof. exact table_theorems_apply. Qed.
+Print Assumptions C05_table_example.
+
+Theorem C05_table_example_runs :
+  (r_value (snd run1) = 660 /\ r_depth (snd run1) = 1 /\ r_canceled (snd run1) = true) /\
+  (r_value (snd run2) = 805307244 /\ r_depth (snd run2) = 3 /\ r_canceled (snd run2) = false) /\
+  (r_value (snd run3) = -805307244 /\ r_depth (snd run3) = 2 /\ r_canceled (snd run3) = false) /\
+  hd move0 (r_pv (snd run2)) = {| mX := 1; mY := 0; mT := 2; mS := 0 |}.
+Proof. exact runs_obs. Qed.
+Print Assumptions C05_table_example_runs.
+
+Theorem C05_table_example_class :
+  wb gen_basis 3 rootw = true /\ wb gen_basis 2 rootw = false /\ lb gen_basis 2 rootb = true /\ lb gen_basis 1 rootb = false.
+Proof. exact rootw_class. Qed.
+Print Assumptions C05_table_example_class.
+
